@@ -316,7 +316,8 @@ func (d *Decoder) readUntypedList(tag byte) (interface{}, error) {
 			aryValue = reflect.Append(aryValue, EnsureRawValue(it))
 			holder.change(aryValue)
 		} else {
-			ary[j] = it
+			// store the decoded value itself, not the carrier of a nested list or of a back-reference
+			ary[j], _ = EnsureInterface(it, nil)
 		}
 	}
 
